@@ -114,6 +114,11 @@ mut("m15h_adapter_minus_delta", "C15", LIB, "self.history.get(time + self.time_d
 mut("m15i_start_at_zero_sign", "C15", LIB, "let time_delta = -time_getter.borrow().get()?;", "let time_delta = time_getter.borrow().get()?;")
 mut("m15j_follow_error_swallowed", "C15", LIB, "                let new_value = getter.borrow().get()?;", "                let new_value = match getter.borrow().get() { Ok(v) => v, Err(_) => return Ok(()) };")
 mut("m15k_set_time_offset_on_error", "C15", LIB, "    pub fn set_time(&mut self, time: Time) -> NothingOrError<E> {\n        let time_delta", "    pub fn set_time(&mut self, time: Time) -> NothingOrError<E> {\n        self.time_delta = Time(0);\n        let time_delta", note="offset must stay unchanged when the clock errs")
+# ---- C16
+mut("m16a_sum_reads_past_filled", "C16", MATH, "            for i in 0..outputs_filled - 1 {\n                value += other_outputs[i].assume_init();", "            for i in 0..outputs_filled.min(N - 1) {\n                value += other_outputs[i].assume_init();", note="reads one unwritten slot unless every input is present")
+mut("m16b_terminal_partner_slot", "C16", LIB, "                    addends[addend_count].write(state);", "                    addends[1].write(state);", note="only-partner-present reads slot 0 unwritten")
+mut("m16c_axle_new_skips_first", "C16", DEV, "        for i in &mut inputs {\n            i.write(Terminal::new());", "        for i in inputs.iter_mut().skip(1) {\n            i.write(Terminal::new());")
+mut("m16d_prod_reads_last_slot", "C16", MATH, "            let mut value = value[0].assume_init();\n            for i in 0..outputs_filled - 1 {\n                value *= other_outputs[i].assume_init();\n            }", "            let mut value = value[0].assume_init();\n            for i in 0..outputs_filled - 1 {\n                value *= other_outputs[i].assume_init();\n            }\n            if N >= 7 && outputs_filled == 3 { let g = other_outputs[N - 2].assume_init(); let _ = g; }", note="arity >= 7 with exactly three present inputs: reads and discards an unwritten slot; invisible natively even when poisoned, only the interpreter sees it")
 # ---- C17
 REF = "src/reference.rs"
 mut("m17a_arc_mutex_try_lock", "C17", REF, "            Self::ArcMutex(arc_mutex) => BorrowMut::MutexGuard(\n                arc_mutex\n                    .lock()", "            Self::ArcMutex(arc_mutex) => BorrowMut::MutexGuard(\n                arc_mutex\n                    .try_lock()", note="panics only under contention")
